@@ -261,6 +261,18 @@ def r_hist_bounds_not_increasing(doc, rng):
                     yield 'bound %d of family %d group %d below its predecessor' % (a, fi, gi), with_group(doc, fi, gi, out)
 
 
+def r_hist_bound_nan(doc, rng):
+    for fi, f, gi, g in hist_groups(doc):
+        ss = g.samples
+        for k in buckets_of(f, g):
+            for alt in ['nan', 'NaN', '-nan', 'NAN', '+nan', 'nAn', ' nan', 'x', '']:
+                out = list(ss); out[k] = set_label(ss[k], 'le', alt)
+                yield 'bound %d of family %d group %d set to %r' % (k, fi, gi, alt), with_group(doc, fi, gi, out)
+            s2 = copy.deepcopy(ss[k]); s2.labels = [(a, b) for a, b in s2.labels if a != 'le']
+            out = list(ss); out[k] = s2
+            yield 'le label of bucket %d of family %d group %d removed' % (k, fi, gi), with_group(doc, fi, gi, out)
+
+
 def bump(v, by):
     x = float(v)
     return str(int(x) + by)
@@ -470,7 +482,7 @@ RULES = [
     ('interleaved-families', r_interleaved_families), ('clashing-families', r_clashing_families),
     ('unit-not-suffix', r_unit_not_suffix), ('unit-on-info-stateset', r_unit_on_info_stateset),
     ('hist-no-inf', r_hist_no_inf), ('hist-bounds-not-increasing', r_hist_bounds_not_increasing),
-    ('hist-counts-not-cumulative', r_hist_counts_not_cumulative), ('hist-non-integral', r_hist_non_integral),
+    ('hist-bound-nan', r_hist_bound_nan), ('hist-counts-not-cumulative', r_hist_counts_not_cumulative), ('hist-non-integral', r_hist_non_integral),
     ('hist-count-ne-inf', r_hist_count_ne_inf), ('counter-like-nan', r_counter_like_nan),
     ('counter-like-negative', r_counter_like_negative), ('info-not-one', r_info_not_one),
     ('stateset-bad-value', r_stateset_bad_value), ('stateset-missing-label', r_stateset_missing_label),
@@ -487,10 +499,6 @@ EXEMPTIONS = [
     ('timestamp order is only checked between consecutive samples of one group',
      '# TYPE a counter\na_total{x="1"} 1 5\na_total{x="2"} 1 3\n# EOF\n',
      'documented exemption: the rule is "within a group"'),
-    ('a bucket bound spelled nan is not ordered against its neighbours',
-     '# TYPE a histogram\na_bucket{le="1"} 1\na_bucket{le="nan"} 1\na_bucket{le="0.5"} 1\na_bucket{le="+Inf"} 1\n# EOF\n',
-     'hole (candidate finding): only the spelling "NaN" is rejected; `le="nan"` passes `_isUncanonicalNumber` and every `b <= bucket` '
-     'comparison with it is False, so bounds 1, nan, 0.5 are accepted although not strictly increasing'),
     ('negative _gsum with negative buckets', '# TYPE a gaugehistogram\na_bucket{le="-1"} 1\na_bucket{le="+Inf"} 1\na_gcount 1\na_gsum -1\n# EOF\n',
      'documented exemption: `_gsum` is not in the negative-value suffix list (gauge histograms may sum below zero)'),
     ('_created may be NaN or negative', '# TYPE a counter\na_total 1\na_created NaN\n# EOF\n',
